@@ -190,6 +190,7 @@ typedef struct {
     int ch; size_t count; int fold;
     int bos; int dplace; int viol;            /* viol: 0 none, else constraint scenario id */
     int dnull, snull, onull;
+    int dobj_full;  /* object holds the complete string although dmax is smaller */
 } qscn;
 
 static void put(void *p, size_t i, int ew, uint32_t v) { if (ew == 1) ((uint8_t *)p)[i] = (uint8_t)v; else if (ew == 2) ((uint16_t *)p)[i] = (uint16_t)v; else ((uint32_t *)p)[i] = v; }
@@ -219,6 +220,7 @@ static void run_case(const qdesc *q, qscn *s, long idx) {
     uint8_t outsz = q->rk == RK_SIGN ? sizeof(int) : sizeof(void *);
     /* --- materialise operands: dest in slot 0 (end- or begin-flush), src in slot 1 end-flush, out in slot 2 */
     size_t dobj_el = s->dmax ? s->dmax : 1, sobj_el;
+    if (s->dobj_full) dobj_el = s->dl + 1;               /* dmax below the string length: the whole terminated string is in the object */
     if (s->viol == 3) dobj_el = 4;                       /* dmax above the limit: operand of 4 elements, see below */
     uint8_t *dobj = s->dplace ? place_begin(0) : place_end(0, dobj_el * ew);
     memset(dobj - (s->dplace ? 0 : 32), CANARY, s->dplace ? 0 : 32);
@@ -397,14 +399,16 @@ static void gen(int qi) {
     for (unsigned long dc = 0; dc < ipow(nsym, dl); dc++)
     for (size_t sl = 0; sl <= (two ? maxlen : 0); sl++)
     for (unsigned long sc = 0; sc < (two ? ipow(nsym, sl) : 1); sc++)
-    for (int dv = 0; dv < 4; dv++)          /* dmax = dl+1 (exact), dl+3, dl (unterminated in dmax), dl-1 */
+    for (int dv = 0; dv < 6; dv++)          /* dmax = dl+1 (exact), dl+3, dl (unterminated in dmax), dl-1; 4/5: dmax = dl-1 / dl-2 of a longer terminated string */
     for (int sv = 0; sv < ((q->fl & QF_SLEN) ? 4 : 1); sv++)   /* slen = sl+1, sl (unterminated object), sl-1, sl+4 */
     for (int cv = 0; cv < ((q->fl & QF_CH) ? nsym + 2 : 1); cv++) {
         memset(&s, 0, sizeof s);
         s.dl = dl; s.sl = sl; str_from(s.d, dl, dc, nsym, al); str_from(s.s, sl, sc, nsym, al);
-        s.dterm = dv < 2; s.dmax = dv == 0 ? dl + 1 : dv == 1 ? dl + 3 : dv == 2 ? dl : dl - 1;
+        s.dterm = dv < 2; s.dmax = dv == 0 ? dl + 1 : dv == 1 ? dl + 3 : dv == 2 ? dl : dv == 5 ? dl - 2 : dl - 1;
         if (dv >= 2 && (dl == 0 || s.dmax == 0 || (dv == 3 && dl < 2))) continue;
-        if (dv >= 2) s.dl = s.dmax;            /* the object holds exactly dmax non-zero elements */
+        if (dv == 5 && dl < 3) continue;
+        if (dv >= 4) { if (q->fl & QF_MEM) continue; s.dobj_full = 1; s.dterm = 1; }   /* string longer than dmax, fully present (truthful: dmax elements exist) */
+        else if (dv >= 2) s.dl = s.dmax;            /* the object holds exactly dmax non-zero elements */
         s.sterm = 1; s.slen = 0;
         if (q->fl & QF_SLEN) {
             s.slen = sv == 0 ? sl + 1 : sv == 1 ? sl : sv == 2 ? sl - 1 : sl + 4;
@@ -446,6 +450,17 @@ static void gen(int qi) {
                 s.dterm = dv < 2; s.dmax = dv == 0 ? s.dl + 1 : dv == 1 ? s.dl + 2 : s.dl; s.sterm = 1;
                 long idx = g_idx++; if (!pick(idx)) continue; g_shm->cur = idx; run_case(q, &s, idx);
             }
+        }
+    }
+    /* pass D: longer haystacks with repeated partial matches for the two-operand searches */
+    if (two && !(q->fl & QF_MEM) && (q->rk == RK_PTR || q->rk == RK_COUNT || q->rk == RK_STATUS)) {
+        size_t hl = g_tier ? 9 : 6;
+        for (unsigned long dc = 0; dc < ipow(2, hl); dc++) for (size_t sl = 2; sl <= 4; sl++) for (unsigned long sc = 0; sc < ipow(2, sl); sc++) for (int dv = 0; dv < 3; dv++) {
+            memset(&s, 0, sizeof s); s.dl = hl; s.sl = sl; str_from(s.d, hl, dc, 2, al); str_from(s.s, sl, sc, 2, al); s.d[hl - 1] = al[2];
+            s.dterm = dv < 2; s.dmax = dv == 0 ? hl + 1 : dv == 1 ? hl + 4 : hl - 1; if (dv == 2) { s.dobj_full = 1; s.dterm = 1; }
+            s.sterm = 1; s.slen = (q->fl & QF_SLEN) ? sl + 1 : 0; s.count = sl; s.fold = 0;
+            long idx = g_idx++; if (!pick(idx)) continue; if (!g_tier && (idx % 2)) continue;
+            s.bos = (int)(idx & 1); g_shm->cur = idx; run_case(q, &s, idx);
         }
     }
     /* pass C: constraint combinations */
